@@ -277,7 +277,7 @@ def _reach_without_edge(fn, src, dst_set_removed):
     return seen
 
 
-def dominating_guards(fn, site_bb):
+def dominating_guards(fn, site_bb, _depth=0):
     """Branch outcomes that hold on every path from entry to site_bb.
     Returns list of dicts {bb, labels:[...], pred:Origin, bool: True/False/None}."""
     idom = fn.dominators()
@@ -320,6 +320,17 @@ def dominating_guards(fn, site_bb):
                 bval = True
         out.append({"bb": d, "labels": labs, "pred": pred, "bool": bval, "target": tgt,
                     "all_labels": [l for l, _ in edges]})
+        # `matches!(x, P)` / `a && b` style: the switched bool is a temporary assigned only constants; the outcome
+        # then implies having passed the block that assigned that constant: inherit that block's guards
+        if bval is not None and _depth < 2 and t.discr.place is not None and t.discr.place.is_local():
+            cs = const_assigns_to(fn, t.discr.place.local)
+            alld = [x for x in local_defs(fn).get(t.discr.place.local, []) if x[1] != "partial"]
+            if cs and len(cs) == len(alld):
+                srcs = [bb for bb, v in cs if v is bval]
+                if len(srcs) == 1 and srcs[0] != site_bb:
+                    for g2 in dominating_guards(fn, srcs[0], _depth + 1):
+                        if not any(g2["bb"] == g["bb"] for g in out):
+                            out.append(g2)
     return out
 
 
@@ -597,14 +608,14 @@ def event_graph(fn, role_of, ret_local=0, max_states=40000, branch_role=None, st
                 r = branch_role(fn, b, switch_pred(fn, b))
                 if r is not None:
                     br_roles[b] = r
-    start = ("ENTRY", frozenset(), "", None)
+    start = ("ENTRY", frozenset(), "", None, frozenset())
     work = [(0, start)]
     seen = set()
     n = 0
     while work:
         bb, st = work.pop()
-        src, aliases, label, retv = st
-        key = (bb, src, aliases, label, retv)
+        src, aliases, label, retv, decided = st
+        key = (bb, src, aliases, label, retv, decided)
         if key in seen:
             continue
         seen.add(key)
@@ -622,6 +633,8 @@ def event_graph(fn, role_of, ret_local=0, max_states=40000, branch_role=None, st
                     src, label, aliases = node, "", set()
             if s.k != "assign" or s.rv is None:
                 continue
+            if decided and s.lhs is not None and not (s.rv.k == "discr"):
+                decided = frozenset(x for x in decided if x[0][1] != s.lhs.local)
             if s.lhs.is_local():
                 l = s.lhs.local
                 rv = s.rv
@@ -646,6 +659,8 @@ def event_graph(fn, role_of, ret_local=0, max_states=40000, branch_role=None, st
                     if l == ret_local:
                         retv = "not(ev:%s)" % (src[2] if src != "ENTRY" else "?")
         t = blk.term
+        if decided and t.k == "call" and t.dest is not None:
+            decided = frozenset(x for x in decided if x[0][1] != t.dest.local)
         if bb in ev_blocks:
             node = ("ev", bb, ev_blocks[bb])
             g.add(src, label, node)
@@ -655,17 +670,30 @@ def event_graph(fn, role_of, ret_local=0, max_states=40000, branch_role=None, st
                 if t.dest.local == ret_local:
                     retv = "ev:%s" % ev_blocks[bb]
             if t.target is not None:
-                work.append((t.target, (node, frozenset(nal), "", retv)))
+                work.append((t.target, (node, frozenset(nal), "", retv, decided)))
             continue
         if t.k == "return":
             g.add(src, label, ("ret", retv if retv is not None else "?"))
             continue
         if t.k == "switch":
             if bb in br_roles:
+                pk = _switch_place_key(fn, bb)
+                if pk is not None and pk[0] != "discr":
+                    pk = None
+                prev = dict(decided).get(pk) if pk is not None else None
+                if prev is not None:
+                    # the same place was already discriminated on this path (e.g. drop elaboration): stay consistent
+                    labs = [lab for lab, _ in switch_edges(fn, bb)]
+                    follow = prev if prev in [str(x) for x in labs] else "else"
+                    for lab, tgt in switch_edges(fn, bb):
+                        if str(lab) == follow:
+                            work.append((tgt, (src, frozenset(aliases), label, retv, decided)))
+                    continue
                 node = ("ev", bb, br_roles[bb])
                 g.add(src, label, node)
                 for lab, tgt in switch_edges(fn, bb):
-                    work.append((tgt, (node, frozenset(), str(lab), retv)))
+                    nd = decided | {(pk, str(lab))} if pk is not None else decided
+                    work.append((tgt, (node, frozenset(), str(lab), retv, nd)))
                 continue
             on_result = t.discr.place is not None and t.discr.place.is_local() and t.discr.place.local in aliases
             for lab, tgt in switch_edges(fn, bb):
@@ -673,7 +701,7 @@ def event_graph(fn, role_of, ret_local=0, max_states=40000, branch_role=None, st
                     nl = (label + "," if label else "") + str(lab)
                 else:
                     nl = label
-                work.append((tgt, (src, frozenset(aliases), nl, retv)))
+                work.append((tgt, (src, frozenset(aliases), nl, retv, decided)))
             continue
         if t.k == "call":
             if t.dest is not None and t.dest.is_local():
@@ -684,11 +712,37 @@ def event_graph(fn, role_of, ret_local=0, max_states=40000, branch_role=None, st
                 if t.dest.local == ret_local:
                     retv = "call:%s" % short(t.callee)
             if t.target is not None:
-                work.append((t.target, (src, frozenset(aliases), label, retv)))
+                work.append((t.target, (src, frozenset(aliases), label, retv, decided)))
             continue
         for s2 in fn.succs(bb):
-            work.append((s2, (src, frozenset(aliases), label, retv)))
+            work.append((s2, (src, frozenset(aliases), label, retv, decided)))
     return g
+
+
+def _switch_place_key(fn, bb):
+    """key of the place whose discriminant / value is switched on in block bb (None when not a plain place)"""
+    t = fn.blocks[bb].term
+    if t.discr.place is None:
+        return None
+    if not t.discr.place.is_local():
+        return ("place",) + t.discr.place.key()
+    l = t.discr.place.local
+    for s in reversed(fn.blocks[bb].stmts):
+        if s.lhs is not None and s.lhs.is_local() and s.lhs.local == l and s.rv is not None:
+            if s.rv.k == "discr":
+                return ("discr",) + s.rv.place.key()
+            if s.rv.k in ("use", "copy_for_deref") and s.rv.ops and s.rv.ops[0].place is not None:
+                return ("place",) + s.rv.ops[0].place.key()
+            return None
+    if fn.local_name(l) is not None:
+        return ("place", l)
+    return None
+
+
+def _is_enum_like(o):
+    """aggregate of an enum variant whose operands are not themselves aggregates of records (keeps labels short/stable)"""
+    name = str(o.a)
+    return not name.endswith("::" + name.split("::")[-2]) if name.count("::") >= 1 else False
 
 
 def abstract_value(fn, s, aliases, src, ev_blocks):
@@ -712,7 +766,15 @@ def abstract_value(fn, s, aliases, src, ev_blocks):
     if rv.k == "agg":
         j = rv.j
         if j.get("ak") == "adt":
-            return "agg:%s::%s" % (j["adt"].split("::")[-1], j["variant"])
+            base = "agg:%s::%s" % (j["adt"].split("::")[-1], j["variant"])
+            if len(rv.ops) == 1 and j["adt"].split("::")[-1] in ("Result", "Option"):
+                inner = origin_of_operand(fn, rv.ops[0], 6).strip()
+                if inner.k == "agg" and "::" in str(inner.a) and not str(inner.a).startswith("closure:") and _is_enum_like(inner):
+                    parts = str(inner.a).split("::")
+                    base += "(%s::%s)" % (parts[-2], parts[-1])
+                elif inner.k == "const" and inner.a.get("v") is not None:
+                    base += "(%s)" % inner.a.get("v")
+            return base
     return "?"
 
 
@@ -751,3 +813,39 @@ def site(fn, bb=None, obj=None):
         sp = fn.blocks[bb].term.sp
     sp = sp or fn.sp
     return "%s:%s" % (sp.get("file", "?"), sp.get("line", "?"))
+
+
+def place_type(fn, place):
+    """type string of a place when derivable from the facts (local type or last field projection type)"""
+    for e in reversed(place.proj):
+        if isinstance(e, dict) and "f" in e:
+            return e.get("ty")
+        if e == "*":
+            continue
+        if isinstance(e, dict) and "v" in e:
+            return None
+    t = fn.local_ty(place.local)
+    for e in place.proj:
+        if e == "*":
+            t = strip_ref(t)
+    return t
+
+
+def strip_ref(t):
+    for pre in ("&mut ", "&"):
+        if t.startswith(pre):
+            return t[len(pre):]
+    return t
+
+
+def discr_type_of_switch(fn, bb):
+    """ADT type discriminated by the switch terminating block bb (when the discriminant statement is in the block)"""
+    t = fn.blocks[bb].term
+    if t.k != "switch" or t.discr.place is None or not t.discr.place.is_local():
+        return None
+    l = t.discr.place.local
+    for s in reversed(fn.blocks[bb].stmts):
+        if s.lhs is not None and s.lhs.is_local() and s.lhs.local == l and s.rv is not None and s.rv.k == "discr":
+            ty = place_type(fn, s.rv.place)
+            return strip_generics(strip_ref(ty)) if ty else None
+    return None
